@@ -1,6 +1,8 @@
 import TpmProofs.Warn
+import TpmProofs.WarnAcct
 import TpmProofs.Props.AcceptIff
 import TpmProofs.Props.C08
+import TpmProofs.Props.C02
 /-!
 # C08 — warn mode keeps decoding: no size error ever aborts a warn-mode decode
 
@@ -86,4 +88,52 @@ theorem c08_no_escape_type (t : Ty) (ht : t ∈ Generated.allTypes) (tb : MsgTab
     · simp [pumpOutcome, resOf] at h
   · simp [initSt] at hdec
 
+/-- **tiling** (every layout, every top, EVERY input): the input of a warn-mode decode is, in order, one segment per event
+shown — for a field exactly the bytes of its value at the declared width, for an `exceeded` warning the skipped rest of
+the overrun region (exactly `max − already` bytes: decoding resumes at the end the violated size field declares), for a
+`subceeded` warning the padding up to the declared end (at most `max − already`), nothing for any other warning — then
+(only if the decode stopped with an error) the bytes consumed on the way to that error, then what was not consumed.
+So every input byte is shown in a field, skipped as the reported tail of a region, or left over. -/
+theorem c08_tiling (tb : MsgTables) (top : Top) (x : List Byte) :
+    ∃ segs off, Segs (stOf (runWalker false tb top x)).out segs ∧
+      x = segs.flatten ++ off ++ (stOf (runWalker false tb top x)).inp ∧
+      (isOkR (runWalker false tb top x) = true → off = []) := by
+  obtain ⟨new, segs, off, h1, h2, h3, h4, _⟩ := runWalker_acctw tb top x
+  simp only [initSt, List.nil_append] at h1 h3
+  exact ⟨segs, off, by rw [h1]; exact h2, h3, h4⟩
+
 end C08
+
+namespace C02
+
+theorem segs_value_only : ∀ {new : List (Nat × Event)} {segs : List (List Byte)}, Segs new segs →
+    (∀ ke ∈ new, ∀ e, ke.2 = .warning e → e.isValueErr = true) → segs.flatten = evBytes new
+  | _, _, .nil, _ => rfl
+  | _, _, @Segs.cons ke seg evs segs hseg hrest, hv => by
+    have ih := segs_value_only hrest (fun ke' hke' => hv ke' (by simp [hke']))
+    have hk := hv ke (by simp)
+    obtain ⟨k, e⟩ := ke
+    simp only [List.flatten_cons, evBytes, List.flatMap_cons] at ih ⊢
+    rw [ih]
+    congr 1
+    cases e with
+    | marshal m => simpa [SegOf, Event.bytes] using hseg
+    | warning w =>
+      have := hk w rfl
+      cases w <;> simp [Err.isValueErr] at this <;> simpa [SegOf, Event.bytes] using hseg
+
+/-- **C02 in warn mode**: whenever a warn-mode decode runs to the end of the input and the only problems it reports are
+out-of-range values, concatenating the re-encoded events yields the input byte for byte -/
+theorem c02_warn_value_only (tb : MsgTables) (top : Top) (x : List Byte) (v : Val) (t : St)
+    (h : runWalker false tb top x = .ok (v, t)) (hin : t.inp = [])
+    (hval : ∀ ke ∈ t.out, ∀ e, ke.2 = .warning e → e.isValueErr = true) : evBytes t.out = x := by
+  obtain ⟨new, segs, off, h1, h2, h3, h4, _⟩ := runWalker_acctw tb top x
+  rw [h] at h1 h3 h4
+  simp only [stOf, initSt, List.nil_append] at h1 h3
+  have hoff : off = [] := h4 rfl
+  subst hoff
+  rw [h1] at hval
+  rw [h1, ← segs_value_only h2 hval, h3, hin]
+  simp
+
+end C02
